@@ -82,6 +82,10 @@ pub fn main_entry() {
     core::install_panic_hook();
     isolate::enable_cap_from_env();
     if let Some(path) = replay {
+        if let (Some((_, watchdog)), Err(_)) = (isolated(&id), std::env::var("VERIF_REPLAY_CHILD")) {
+            // strict replay of a process-level property: in a child with the allocation cap on
+            std::process::exit(isolate::replay_in_child(&id, &path, watchdog));
+        }
         std::process::exit(replay_one(&id, &path));
     }
     let mut ctx = Ctx::new(&id, tier, seed);
